@@ -88,7 +88,9 @@ impl LimCfg {
 
 fn lim_configs(tier: Tier) -> Vec<LimCfg> {
     // (the last two: an initial limit outside [min, max] - the constructors must bring it in)
-    let bounds = [(1usize, 2usize, 3usize), (2, 2, 2), (1, 1, 4), (2, 9, 4), (2, 0, 4)];
+    // (... and limits beyond 2^53, where usize -> f64 -> usize does not round-trip)
+    const BIG: usize = (1usize << 53) + 3;
+    let bounds = [(1usize, 2usize, 3usize), (2, 2, 2), (1, 1, 4), (2, 9, 4), (2, 0, 4), (1, BIG, BIG)];
     let programs: Vec<Vec<&'static str>> = tier.pick(
         vec![vec!["f", "x"], vec!["x", "x"], vec!["f", "f"], vec!["fs", "x"], vec!["f", "s", "x"]],
         vec![vec!["f", "x"], vec!["x", "x"], vec!["f", "f"], vec!["fs", "x"], vec!["f", "s", "x"], vec!["fx", "xf"], vec!["ff", "xx"], vec!["v", "f", "x"]],
